@@ -160,6 +160,13 @@ loop:
 	if err != nil {
 		logger.Printf("failed to remove socket %s: %v", sockpath, err)
 	}
+	// The socket file is gone now, and a new daemon may bind the same path
+	// while this one is still closing its database. Closing a Unix listener
+	// unlinks its path again by default, which would then delete the new
+	// daemon's socket; keep the listener from doing that.
+	if l, ok := listener.(interface{ SetUnlinkOnClose(bool) }); ok {
+		l.SetUnlinkOnClose(false)
+	}
 	if st != nil {
 		err = st.Close()
 		if err != nil {
